@@ -161,6 +161,9 @@ def run(ctx):
     seqkind_rule(ctx)
     decscale_rule(ctx)
     descend_rule(ctx)
+    # nothing is written for a unit variant under `null` only when it is the variant that stands for null (shared with C01)
+    from .c01 import null_unit_variant_rule
+    null_unit_variant_rule(ctx)
 
 
 # reviewed exceptions for RANGE: function -> (max count, reason)
@@ -955,6 +958,26 @@ def decscale_rule(ctx):
             ctx.ob('DECSCALE', 'serialize/truncation-keeps-a-byte-at-end/per-sign', paired, short_loc(h.span),
                    'scan loops (end-of-buffer default false): %d; keep-one-byte tests after them (default true): %d of %d' % (
                        len(scans), sum(1 for d in keeps if d[1] in (['True'], ['true'], ['1'])), len(keeps)))
+            # ... the scans advance one byte at a time, and the step back (keep one byte) is taken only from a position
+            # that is not the start of the buffer
+            adds, subs = [], []
+            for bb_ in sorted(h.live_blocks()):
+                if h.is_cleanup(bb_):
+                    continue
+                for s_ in h.stmts(bb_):
+                    if 'assign' in s_ and s_['rv']['k'] in ('bin', 'checked_bin') and s_['rv']['op'] in ('AddWithOverflow', 'Add', 'SubWithOverflow', 'Sub'):
+                        (adds if s_['rv']['op'].startswith('Add') else subs).append((bb_, const_int(s_['rv']['r']), op_place(s_['rv']['l'])))
+            counters = {pl['l'] for _, _, pl in adds + subs if pl is not None and not pl.get('p')}
+            steps_ok = len(counters) == 1 and bool(adds) and all(c_ == 1 for _, c_, _ in adds + subs) and \
+                all(sum(1 for bb_, _, _ in adds if bb_ in blk_) == 1 for blk_ in lp_.values()) and all(inl(bb_) for bb_, _, _ in adds)
+            back_ok = len(subs) == len(keeps) and all(
+                any(g_['op'] in ('Ne', 'Gt') and g_['r'].consts() == {0} and not g_['r'].params() and not g_['l'].params() and not g_['l'].fields and
+                    not g_['l'].call_names() and g_['l'].consts() <= {0, 1} for g_ in cmp_guards(h, bb_))
+                for bb_, _, _ in subs)
+            ctx.ob('DECSCALE', 'serialize/truncation-scans-byte-by-byte', steps_ok, short_loc(h.span),
+                   'one counter, advanced by the constant 1 once per scan-loop iteration and nowhere else: %s (steps %s)' % (steps_ok, sorted({c_ for _, c_, _ in adds})))
+            ctx.ob('DECSCALE', 'serialize/truncation-steps-back-only-from-a-nonzero-position', back_ok, short_loc(h.span),
+                   '%d step(s) back of 1, each under `position != 0`: %s' % (len(subs), back_ok))
             ctx.ob('DECSCALE', 'serialize/truncation-keeps-a-byte-at-end', not computed and len(trues) >= 1, short_loc(h.span),
                    'end-of-buffer defaults of the sign-byte scans: %s; computed (non-constant) defaults: %d; constant-true (keep one byte) defaults: %d' % (
                        [d[1] for d in defaults], len(computed), len(trues)))
@@ -985,6 +1008,33 @@ def decscale_rule(ctx):
             edges = {True: b.term(bb)['otherwise'], False: [x['bb'] for x in b.term(bb)['targets'] if x['v'] == 0][0]}
             truth = lambda v: _CMP[cond[1]](v, 0) != neg
             zero_only = (not all_paths_err(b, edges[truth(0)])) and all_paths_err(b, edges[truth(1)]) and all_paths_err(b, edges[truth(-1)])
+    # a fixed wider than the 16-byte mantissa is padded on the left with the sign byte, one byte per missing position;
+    # and the fit check of a narrower one looks at the bytes dropped plus the first one kept (prefix 0..start + 1)
+    from ..inventory import natural_loops
+    pad_ok = False
+    prefixes = []
+    for b in mod:
+        if not any('can_truncate_without_altering_number' in cname(t) for bb, t in b.calls()):
+            continue
+        lps = natural_loops(b)
+        for bb, t in b.calls():
+            if b.is_cleanup(bb):
+                continue
+            if (t.get('callee') or '') == 'std::io::Write::write_all' and any(bb in blk for blk in lps.values()):
+                ao = origin(b, t['args'][1])
+                te = try_edges(b, bb)
+                if ao.consts() == {0, 255} and 'array:1' in ao.flags and not ao.params() and te is not None and te[1] is not None and all_paths_err(b, te[1]):
+                    pad_ok = True
+            if call_matches(t, ['slice::<impl [T]>::get']) and len(t['args']) > 1:
+                ro = origin(b, t['args'][1])
+                ints_ = sorted(c for c in ro.consts() if isinstance(c, int) and not isinstance(c, bool))
+                if any(a[0] == 'agg' and a[1].endswith('::Range') for a in ro.atoms) and any(call_matches(c, ['::checked_sub']) for c in ro.calls):
+                    prefixes.append(ints_ == [0, 1] and {x for x in ro.flags if x.startswith('arith:')} <= {'arith:AddWithOverflow', 'arith:Add'})
+    prefix_ok = bool(prefixes) and all(prefixes)
+    ctx.ob('DECSCALE', 'serialize/fixed-wider-than-the-mantissa-is-sign-extended', pad_ok, loc0,
+           'a loop writes one sign byte (0x00 / 0xFF) per missing position and propagates a failed write: %s' % pad_ok)
+    ctx.ob('DECSCALE', 'serialize/fit-check-prefix-is-dropped-bytes-plus-one', prefix_ok, loc0,
+           'the bytes judged by the fit check are buf[0 .. start + 1] (start = 16 - size): %s' % prefix_ok)
     ctx.ob('DECSCALE', 'serialize/fixed-of-size-zero-holds-only-zero', bool(zero_only), loc0,
            'the unscaled value is compared with 0 where no byte is kept: zero goes on, positive and negative are errors: %s' % zero_only)
 
